@@ -67,6 +67,10 @@ def gen_trial(rng, profile):
                 ids = [k for k in range(nid * n) if k % n == i and rng.random() < 0.9]
             else:
                 ids = sorted(rng.sample(range(nid), rng.randint(2, nid)))
+                if srcs[i]['eph'] and len(ids) >= 2 and rng.random() < 0.35:
+                    # an ephemeral side branch shuts down in an orderly way (CLOSE on the wire) and comes back: new server id, its ids start over
+                    cut = rng.randint(1, len(ids) - 1)
+                    ids = [(k, sid) for k in ids[:cut]] + [(k2, sid + "'") for k2 in range(len(ids) - cut)]
         else:
             ids, k = [], rng.randint(0, 2)
             for _ in range(rng.randint(2, nid)):
@@ -90,6 +94,9 @@ def gen_trial(rng, profile):
                 block.append({'f': frame0(t), 'sid': sd, 'mid': k, 'topics': T, 'bal': balv, 'body': body[0]})
             body[0] += 1; table[body[0]] = (i, k, '', sd, serial)
             block.append({'f': '//', 'sid': sd, 'mid': k, 'topics': T, 'bal': balv, 'body': body[0]})
+            if profile == 'wf' and serial > 0 and isinstance(ids[serial - 1], tuple) and ids[serial - 1][1] != sd:       # first block of the new incarnation: the old one's CLOSE comes first
+                body[0] += 1; table[body[0]] = (i, -3, '', ids[serial - 1][1], serial)
+                block.insert(0, {'f': '//', 'sid': ids[serial - 1][1], 'mid': -3, 'topics': [], 'bal': 0, 'body': body[0]})
             if bal and rng.random() < 0.06:      # a worker shuts down and comes back (CLOSE on the wire); the splitter's ids go on, frames of slower workers are still in flight
                 body[0] += 1; table[body[0]] = (i, -3, '', sd, serial)
                 block.append({'f': '//', 'sid': sd, 'mid': -3, 'topics': [], 'bal': 0, 'body': body[0]})
@@ -224,10 +231,10 @@ def oracles(trial, calls):
             if o['k'] == 'exc': v['C01'].append(('exception', o['e']))
             if o['k'] != 'ret': continue
             rid = o['id']
-            per_src = {}
+            per_src, sid_of = {}, {}
             for t, b in o['data']:
                 i, mid, pt, sid, serial = table[b]
-                per_src.setdefault(i, []).append((t, mid, pt, serial))
+                per_src.setdefault(i, []).append((t, mid, pt, serial)); sid_of[i] = sid
                 spec = srcs[i]['topics']
                 if not subscribed(spec, pt): v['C02'].append(('unsubscribed-topic' + ('-slash' if '/' in pt else ''), f'source {i} topic {pt!r} delivered, subscription {spec}'))
                 elif mapped(spec, pt) != t: v['C02'].append(('wrong-topic-name', f'{pt!r} delivered as {t!r}, subscription {spec}'))
@@ -247,8 +254,9 @@ def oracles(trial, calls):
                 if srcs[i]['eph']:
                     k = fs[0][1]
                     if wf and len({m for _, m, _, _ in fs}) > 1: v['C05'].append(('eph-mixed', f'source {i}'))   # only for legitimate upstreams: after a CLOSE the per-source id restarts by design
-                    if i in eph_last and k < eph_last[i] and wf: v['C05'].append(('eph-order', f'source {i}: id {k} after {eph_last[i]}'))
-                    eph_last[i] = max(k, eph_last.get(i, k))
+                    ek = (i, sid_of.get(i))      # per incarnation: after a CLOSE the restarted publisher numbers from scratch, by design
+                    if ek in eph_last and k < eph_last[ek] and wf: v['C05'].append(('eph-order', f'source {i}: id {k} after {eph_last[ek]}'))
+                    eph_last[ek] = max(k, eph_last.get(ek, k))
                 if wf:   # completeness: exactly the subscribed topics published under that block
                     serials = {s for _, _, _, s in fs}
                     if len(serials) == 1:
